@@ -117,7 +117,7 @@ def run(R):
     analysed.add(binv.name)
     from fv.absint import Sq
     npat = 0
-    for n in (1, 2, 3):
+    for n in ((1, 2, 3, 4, 5, 6) if R.tier == "thorough" else (1, 2, 3, 4)):
         for pat in range(1 << n):
             st = St()
             st.res[("dummy",)] = {}
@@ -163,7 +163,7 @@ def run(R):
                     why.append(f"element {i}: range [{lo},{hi}], class {fmt(got)}, expected {fmt(want)}")
             R.check(ok, "C12-batch", site, "every element is the inverse (class x_i^(q-2)) or 0 for a zero input, canonical",
                     "; ".join(why), key=f"batch|{n}|{pat}")
-    R.floor("batch inversion patterns", npat, 14)
+    R.floor("batch inversion patterns", npat, 126 if R.tier == "thorough" else 30)
     ctx.res_syms = {}
     # ---- constructor census: every function that builds a Felt value must be one of the above
     felt_ty = ctx.ty_by_str(FELT_TY)
